@@ -61,7 +61,7 @@ func init() {
 		Harness:     []string{"control:Verif_C18_table", "control:Verif_C18_strings", "control:Verif_C18_rerouted"},
 		MaxIter:     400,
 		Level:       "other",
-		LevelText:   "The real ControlPlane.ChooseDialTarget is executed symbolically for every combination of dial mode, outbound kind, presence of a sniffed name and what the DNS controller / real-domain cache know (symbolic booleans), and for every sniffed string up to the bound over the alphabet {1 . : [ ] a} with symbolic bytes through the real isIPLikeDomain, netip.ParseAddr, net.SplitHostPort and net.JoinHostPort; the solver discharges the decision-table and well-formedness obligations on every path.",
+		LevelText:   "The real ControlPlane.ChooseDialTarget is executed symbolically for every combination of dial mode, outbound kind, presence of a sniffed name and what the DNS controller / real-domain cache know (symbolic booleans), and for every sniffed string up to the bound over the alphabet {1 . : [ ] a} with symbolic bytes through the real isIPLikeDomain, netip.ParseAddr, net.SplitHostPort and net.JoinHostPort; the solver discharges the decision-table and well-formedness obligations on every path. Also the real chooseProxyDialer with Route and the group's dialer selection replaced by arbitrary results: for a flow routed again in userspace the target dialled is the one ChooseDialTarget prescribes for the outbound finally used (3 kernel outbounds x 2 re-routed outbounds x 4 dial modes x name present or not).",
 		LevelNote:   "Trusted: go/ssa, executor, z3. Environment replaced by symbolic stubs: DnsController.HasDnsKnowledge/cacheKey, lookupRealDomainCache, triggerRealDomainProbe (counted). Destination fixed to 10.1.2.3 with ports {1,443,65535}; strings up to 4 (quick) / 6 (thorough) bytes. Whether domain mode re-routes is not constrained (the property does not state it).",
 		Technique:   techniqueText,
 		Explanation: "Bounded symbolic execution of ChooseDialTarget and the string normalisation it performs.",
@@ -104,7 +104,7 @@ func init() {
 		MaxIter:     400,
 		QueryMs:     1500,
 		Level:       "other",
-		LevelText:   "Histories of NotifyLatencyChange events (which node, alive or not, measured or not, latency, per-node offsets and the tolerance all symbolic) are run through the real AliveDialerSet from its constructor; after every event the solver shows that Len/GetMinLatency/GetRandExcluded agree with a ghost alive-set, that no measured alive node beats the chosen one by the tolerance or more, that the choice moved only for the reasons the statement lists, and that exclusion is honoured. The real DialerGroup.SelectWithExclusionResult/_select/selectionNetworkTypes run over six health domains with symbolic alive flags for every policy, requested type, strictness and excluded node.",
+		LevelText:   "Histories of NotifyLatencyChange events (which node, alive or not, measured or not, latency, per-node offsets and the tolerance all symbolic) are run through the real AliveDialerSet from its constructor; after every event the solver shows that Len/GetMinLatency/GetRandExcluded agree with a ghost alive-set, that no measured alive node beats the chosen one by the tolerance or more, that the choice moved only for the reasons the statement lists, and that exclusion is honoured. The real DialerGroup.SelectWithExclusionResult/_select/selectionNetworkTypes run over six health domains with symbolic alive flags for every policy, requested type, strictness and excluded node. Also a run-time switch of the selection policy (from random or another min policy to min-last-latency) after nodes were measured: the first choice after the switch obeys the same rule (offsets included).",
 		LevelNote:   "Trusted: go/ssa, executor, z3/cvc5, harness spec. Dialer.snapshotLatencyForPolicy and MustGetAlive are replaced by the harness's ghost tables (a node once measured stays measured); fastrand is an arbitrary in-range value; logging is a no-op. Bounded histories from construction (no inductive invariant is assumed). Group callbacks (edge reporting) belong to C16 and are not asserted here.",
 		Technique:   techniqueText,
 		Explanation: "Bounded symbolic execution of AliveDialerSet and DialerGroup selection.",
